@@ -55,7 +55,12 @@ WORDS = ["hi", "bad", "boom", "x", "evil", "ok", ""]
 
 
 def translate():
-    return tr.run()
+    info = tr.run()
+    # phase 2: the theorems about the interpreter are about Generated/LlmFlowsV1.lean (the compiled llm_flows.co), regenerate it too
+    from ..translate import c14
+
+    info["llm_flows_v1"] = c14.run()
+    return info
 
 
 # ----------------------------------------------------------------------------- generators
